@@ -8,7 +8,7 @@ BASE = "cd /repo && /venv/bin/python -m pytest -ra -q -p no:cacheprovider --time
 
 # id -> (technique, what is decided, residue not decided / trusted base)
 T = {
- 'C01': ('typestate + def-use + polynomial normal forms on the transition kernels',
+ 'C01': ('abstract runs of the Metropolis transitions (accept rule, direction discipline) + typestate + def-use + polynomial normal forms on the transition kernels',
          'structural necessary conditions of detailed balance in transitions.py: direction-flip typestate of the Metropolis step, merge/termination mirror symmetry, orientation of acceptance ratios and progressive-sampling selections, weight functions, fair direction draw, co-updated step/acceptance accumulators, divergence threshold shared through the slice variable; termination criterion evaluated on the merged tree and the same (negative, positive) pair for each direction; slice weight is a summable number; trajectory length independent of the state',
          'invariance itself (a sum over all random outcomes) is not decided; trusted: ast, the accepted idiom tables in DESIGN.md section 7'),
  'C02': ('abstract execution of every _step (palindrome check) + structural reversibility-check rule',
@@ -38,7 +38,7 @@ T = {
  'C11': ('exact matrix-calculus forms in the operator algebra + sign-parity and homogeneity-degree typing (with diagonal/off-diagonal positional types)',
          'gradients of the array-, factor-, product- and low-rank-parametrised classes equal their matrix-calculus form as operator words (factors, sides, transposes, Woodbury identities through the capacitance lemma, cho_solve convention); parity and homogeneity degree of every gradient incl. the SoftAbs class; block-diagonal gradients delegate per block with the conformal vector part',
          'numeric factors of the diagonal / scalar classes beyond degree, triangular masking, repeated eigenvalues (SoftAbs) not decided'),
- 'C12': ('CFG exit discipline + exception-flow analysis over solvers, integrators, transitions',
+ 'C12': ('abstract runs of the Metropolis transitions with an integrator error injected at every step + CFG exit discipline + exception-flow analysis over solvers, integrators, transitions',
          'every solver return is under a convergence test on the returned iterate, all other exits raise ConvergenceError, foreign ValueError/LinAlgError are converted, no name used on a raise path can be unbound, raise taxonomy under IntegratorError, guarded step calls, handlers record and contain, NaN guards on energies',
          'finiteness of values as a numeric fact not decided'),
  'C13': ('abstract runs of sample_chains / stagers over labelled tokens (row contents vs the documented semantics; in-memory, memory-mapped, two-process) + Optional-narrowing dataflow, definite-assignment of statistics keys, index linear forms, sibling agreement of storage branches',
